@@ -282,9 +282,11 @@ func (s *state) walk(node parse.Node) error {
 		}
 		if CoerceBool(v) {
 			return s.walk(node.Body)
-		} else {
+		} else if node.Else != nil {
+			// The filter of a "for ... if" loop is an IfNode without an else body.
 			return s.walk(node.Else)
 		}
+		return nil
 	case *parse.IncludeNode:
 		tpl, ctx, err := s.walkIncludeNode(node)
 		if err != nil {
